@@ -479,32 +479,45 @@ func TestC16Exhaustive(t *testing.T) {
 	// (c) large records: every body length within 9 of 2^k, k = 8..18 (thorough ..22) - complete, cut short by one
 	// byte, followed by three more bytes, with an over-long prefix, and with a prefix that promises one byte more
 	maxPow := vstat.Pick(18, 22)
+	largeRecord := func(part string, n int) {
+		idx++
+		if idx%shards != shard {
+			return
+		}
+		minimal, padded, plus1 := PutUvarint(nil, uint64(n), 0), PutUvarint(nil, uint64(n), 1), PutUvarint(nil, uint64(n+1), 0)
+		for _, c := range []Case16{
+			{In: hex.EncodeToString(minimal), Fill: n, Seed: uint64(n)},
+			{In: hex.EncodeToString(minimal), Fill: n - 1, Seed: uint64(n)},
+			{In: hex.EncodeToString(minimal), Fill: n + 3, Seed: uint64(n)},
+			{In: hex.EncodeToString(padded), Fill: n, Seed: uint64(n)},
+			{In: hex.EncodeToString(plus1), Fill: n, Seed: uint64(n)},
+		} {
+			in := c.Bytes()
+			info, v := Run16Bytes(in)
+			if v != nil {
+				st.Report(t, "TestC16Exhaustive", c, v)
+			}
+			record16c(c, in, info)
+			counts[part]++
+		}
+	}
 	for k := 8; k <= maxPow; k++ {
 		for d := -9; d <= 9; d++ {
-			n := 1<<k + d
-			idx++
-			if idx%shards != shard {
-				continue
-			}
-			minimal, padded, plus1 := PutUvarint(nil, uint64(n), 0), PutUvarint(nil, uint64(n), 1), PutUvarint(nil, uint64(n+1), 0)
-			for _, c := range []Case16{
-				{In: hex.EncodeToString(minimal), Fill: n, Seed: uint64(n)},
-				{In: hex.EncodeToString(minimal), Fill: n - 1, Seed: uint64(n)},
-				{In: hex.EncodeToString(minimal), Fill: n + 3, Seed: uint64(n)},
-				{In: hex.EncodeToString(padded), Fill: n, Seed: uint64(n)},
-				{In: hex.EncodeToString(plus1), Fill: n, Seed: uint64(n)},
-			} {
-				in := c.Bytes()
-				info, v := Run16Bytes(in)
-				if v != nil {
-					st.Report(t, "TestC16Exhaustive", c, v)
-				}
-				record16c(c, in, info)
-				counts["large_records"]++
+			largeRecord("large_records", 1<<k+d)
+		}
+	}
+	// (d) records whose body is a whole number of blocks, or one byte less / more: k * 2^m - 1..+1 for the block sizes
+	// 2^12 (a page), 2^16 and 2^20 and k = 1..4 (thorough 1..8) - powers of two are only the k = 1, 2, 4 of these. The
+	// bodies are the seeded fill stream up to their last byte, so a result that is not the WHOLE body (newBuf=true: a
+	// copy of it) is not "a copy of a range of the input"; same five shapes as above.
+	for _, m := range []int{12, 16, 20} {
+		for k := 1; k <= vstat.Pick(4, 8); k++ {
+			for d := -1; d <= 1; d++ {
+				largeRecord("block_multiple_records", k<<m+d)
 			}
 		}
 	}
-	parts := map[string]any{"shards": shards, "sweep_alphabet": len(sweep), "sweep_depth": sweepDepth, "group_alphabet": len(groupsAlpha), "group_depth": gDepth, "large_record_max_pow2": maxPow}
+	parts := map[string]any{"shards": shards, "sweep_alphabet": len(sweep), "sweep_depth": sweepDepth, "group_alphabet": len(groupsAlpha), "group_depth": gDepth, "large_record_max_pow2": maxPow, "block_multiple_max_bytes": vstat.Pick(4, 8) << 20}
 	for k, v := range counts {
 		parts[k] = v
 	}
@@ -1272,6 +1285,10 @@ func TestC16FirstUseChild(t *testing.T) {
 // C15: byte strings of 256 MiB and more (5-byte prefix), beyond 1 GiB, 2 GiB and 4 GiB
 
 func record15Z(c Case15Z, info Info15Z) {
+	if info.NoArena {
+		vstat.For("C15").Inconclusivef("huge body of %d bytes: no address space for the arena", c.L)
+		return
+	}
 	var h uint64
 	if info.NonTrivial() {
 		h = c.Hash()
@@ -1301,20 +1318,22 @@ func peakRSSkB() int64 {
 func TestC15HugeBodies(t *testing.T) {
 	st := vstat.For("C15")
 	var lens []int
-	for _, p := range vstat.Pick([]int{21, 28, 29, 30}, []int{21, 28, 29, 30, 31, 32}) {
+	// the arena is address space that is never touched, so 4 GiB cost what 2 MiB cost: both tiers visit every boundary
+	// (thorough adds 2^33 and lengths between the boundaries)
+	for _, p := range vstat.Pick([]int{21, 28, 29, 30, 31, 32}, []int{21, 28, 29, 30, 31, 32, 33}) {
 		for d := -2; d <= 2; d++ {
 			lens = append(lens, 1<<p+d)
 		}
 	}
-	lens = append(lens, 1<<30+1<<20+5)
+	lens = append(lens, 1<<30+1<<20+5, 3<<30+7, 1<<32+1<<30+1)
 	if vstat.Thorough() {
-		lens = append(lens, 3<<30+7, 1<<32+1<<30+1)
+		lens = append(lens, 1<<31+12345, 5<<30+1<<16+3, 1<<33+1<<32+9)
 	}
 	maxLen := 0
 	for _, n := range lens {
 		maxLen = max(maxLen, n)
 	}
-	ReserveArena(maxLen + 32)
+	ReserveArena(maxLen + 32) // the cases reserve what they need when the whole is not to be had
 	for _, n := range lens {
 		for _, k := range []string{KBytes, KString} {
 			c := Case15Z{K: k, L: n}
@@ -1325,6 +1344,150 @@ func TestC15HugeBodies(t *testing.T) {
 	}
 	st.SetExhaustive("huge_bodies", map[string]any{"lengths": lens, "kinds": 2, "arena_bytes": maxLen + 32})
 	st.SetExtra("huge_bodies_peak_resident_kB", peakRSSkB())
+}
+
+// =============================================================================================
+// C15: streams with values too large to copy (several items on ONE writer, decoded as one concatenation in place)
+
+func record15ZS(c Case15ZS, info Info15ZS) {
+	if info.NoArena {
+		vstat.For("C15").Inconclusivef("huge stream of %d items: no address space for the arena", len(c.Items))
+		return
+	}
+	var h uint64
+	if info.NonTrivial() {
+		h = c.Hash()
+	}
+	st := vstat.For("C15")
+	st.Case(info.NonTrivial(), h, func() any { return c }, info.Classes()...)
+	st.AddExtra("huge_stream_items", int64(info.Items))
+}
+
+// TestC15HugeSeqExhaustive: every stream `first, spacer, second` (and `first, spacer, second, spacer, first`) on one
+// writer where first is a byte string / string of b bytes, second one of b + k*2^m bytes - the same low m bits, so
+// whatever is kept of a length in m bits cannot tell them apart - in both orders, with nothing / a number / another
+// byte string between them; and the streams of the values around 2^31 and 2^32 bytes.
+func TestC15HugeSeqExhaustive(t *testing.T) {
+	st := vstat.For("C15")
+	shard, shards := vstat.Shard()
+	ReserveArena(SeqArenaBytes) // the cases reserve what they need when the whole is not to be had
+	idx, ran := 0, int64(0)
+	one := func(items ...ZItem) {
+		idx++
+		if idx%shards != shard {
+			return
+		}
+		c := Case15ZS{Items: append([]ZItem(nil), items...)}
+		info, v := Run15ZS(c)
+		st.Report(t, "TestC15HugeSeqExhaustive", c, v)
+		record15ZS(c, info)
+		ran++
+	}
+	bases := vstat.Pick([]int{0, 1, 3, 127, 128, 300}, []int{0, 1, 2, 3, 5, 127, 128, 129, 300, 16383, 16384, 1<<21 + 1})
+	mods := []int{8, 16, 31, 32}
+	ks := vstat.Pick([]int{1}, []int{1, 2})
+	spacers := [][]ZItem{nil, {{K: KU16, U: 0x1234}}, {{K: KVar, U: 300}}, {{K: KString, L: 2}}, {{K: KByte, U: 7}, {K: KBytes, L: 77}, {K: KU64, U: 1 << 40}}}
+	kinds := [][2]string{{KBytes, KBytes}, {KBytes, KString}, {KString, KBytes}, {KString, KString}}
+	for _, b := range bases {
+		for _, m := range mods {
+			for _, k := range ks {
+				big := b + k<<m
+				if big > MaxSeqItemLen {
+					continue
+				}
+				for _, sp := range spacers {
+					for _, kk := range kinds {
+						lo, hi := ZItem{K: kk[0], L: b}, ZItem{K: kk[1], L: big}
+						one(append(append([]ZItem{lo}, sp...), hi)...)
+						one(append(append([]ZItem{hi}, sp...), lo)...)
+						if 2*big+b+64 < SeqArenaBytes {
+							one(append(append(append(append([]ZItem{lo}, sp...), hi), sp...), lo)...)
+							one(append(append(append(append([]ZItem{hi}, sp...), lo), sp...), hi)...)
+						}
+					}
+				}
+			}
+		}
+	}
+	// the values around 2^31 and 2^32 bytes behind each other in one stream
+	for _, p := range []int{31, 32} {
+		for _, kind := range []string{KBytes, KString} {
+			one(ZItem{K: kind, L: 1<<p - 1}, ZItem{K: kind, L: 1 << p}, ZItem{K: kind, L: 1<<p + 1})
+			one(ZItem{K: KVar, U: 1 << p}, ZItem{K: kind, L: 1 << p}, ZItem{K: KU32, U: 1<<32 - 1}, ZItem{K: kind, L: 1<<p - 1}, ZItem{K: kind, L: 5})
+		}
+	}
+	st.SetExhaustive("huge_streams", map[string]any{"base_lengths": bases, "congruent_modulo_2^": mods, "multiples": ks, "spacers": len(spacers), "cases": ran, "shards": shards, "arena_bytes": SeqArenaBytes})
+	st.SetExtra("huge_streams_peak_resident_kB", peakRSSkB())
+}
+
+// genCase15ZS: 2..8 items; a quarter are numbers, the others byte strings / strings whose length is small, around
+// 2^16, at a prefix / 2^31 / 2^32 boundary, anything up to 2^33 - or (3 in 8) derived from the length of an EARLIER byte
+// string of the same stream: that length + or - k*2^m (m = 8, 16, 31, 32; k = 1..2), or the same length again.
+func genCase15ZS(t *rapid.T) Case15ZS {
+	n := rapid.IntRange(2, 8).Draw(t, "items")
+	c := Case15ZS{}
+	var lens []int
+	huge := 0
+	for i := 0; i < n; i++ {
+		k := rapid.IntRange(0, 7).Draw(t, "kind")
+		if k <= 1 {
+			kind := []string{KByte, KU16, KU32, KU64, KVar}[rapid.IntRange(0, 4).Draw(t, "numKind")]
+			c.Items = append(c.Items, ZItem{K: kind, U: genNumeric(t, 64)})
+			continue
+		}
+		kind := KBytes
+		if k >= 5 {
+			kind = KString
+		}
+		var L int
+		cls := rapid.IntRange(0, 7).Draw(t, "lenClass")
+		if cls >= 5 && len(lens) == 0 {
+			cls = rapid.IntRange(0, 4).Draw(t, "lenClass0")
+		}
+		switch cls {
+		case 0, 1:
+			L = rapid.IntRange(0, 300).Draw(t, "len")
+		case 2:
+			L = rapid.IntRange(0, 1<<17).Draw(t, "len")
+		case 3:
+			p := rapid.SampledFrom([]int{7, 14, 16, 21, 28, 30, 31, 32, 33}).Draw(t, "pow")
+			L = 1<<p + rapid.IntRange(-2, 2).Draw(t, "delta")
+		case 4:
+			L = rapid.IntRange(seqHuge, MaxSeqItemLen).Draw(t, "len")
+		case 5, 6:
+			prev := rapid.SampledFrom(lens).Draw(t, "earlier")
+			m := rapid.SampledFrom(seqModBits).Draw(t, "modBits")
+			d := rapid.IntRange(1, 2).Draw(t, "multiple") << m
+			if rapid.Bool().Draw(t, "down") && prev >= d {
+				L = prev - d
+			} else {
+				L = prev + d
+			}
+		default:
+			L = rapid.SampledFrom(lens).Draw(t, "earlier")
+		}
+		if L > MaxSeqItemLen || (L >= seqHuge && huge >= MaxSeqHuge) {
+			L &= 1<<17 - 1 // the same low bits, within the limits of a stream
+		}
+		if L >= seqHuge {
+			huge++
+		}
+		lens = append(lens, L)
+		c.Items = append(c.Items, ZItem{K: kind, L: L})
+	}
+	return c
+}
+
+func TestC15RapidHugeSeq(t *testing.T) {
+	st := vstat.For("C15")
+	ReserveArena(SeqArenaBytes) // the cases reserve what they need when the whole is not to be had
+	rapid.Check(t, func(t *rapid.T) {
+		c := genCase15ZS(t)
+		info, v := Run15ZS(c)
+		st.Report(t, "TestC15RapidHugeSeq", c, v)
+		record15ZS(c, info)
+	})
+	st.SetExtra("huge_streams_rapid_peak_resident_kB", peakRSSkB())
 }
 
 // =============================================================================================
@@ -1348,6 +1511,14 @@ func TestReplay(t *testing.T) {
 		info, v := Run15W(c)
 		vstat.For("C15").Report(t, "TestReplay", c, v)
 		record15W(c, info)
+	case strings.Contains(env.Test, "HugeSeq"):
+		var c Case15ZS
+		if _, err := vstat.LoadReplay(p, &c); err != nil {
+			t.Fatalf("cannot load %s: %v", p, err)
+		}
+		info, v := Run15ZS(c)
+		vstat.For("C15").Report(t, "TestReplay", c, v)
+		record15ZS(c, info)
 	case strings.Contains(env.Test, "HugeBodies"):
 		var c Case15Z
 		if _, err := vstat.LoadReplay(p, &c); err != nil {
